@@ -87,7 +87,12 @@ func (s rsc) Read(p []byte) (int, error) {
 var srcSeams *Seams
 
 func (s rsc) Seek(o int64, w int) (int64, error) { return s.r.Seek(o, w) }
-func (rsc) Close() error                         { return nil }
+func (rsc) Close() error {
+	if srcSeams != nil {
+		return srcSeams.hit("srcclose")
+	}
+	return nil
+}
 
 // rscWT additionally implements io.WriterTo, as bytes.Reader, strings.Reader and bytes.Buffer based sources do.
 type rscWT struct {
@@ -213,6 +218,7 @@ func expectUnsupported(c Cfg) bool {
 
 type matrixP struct {
 	Cfg Cfg `json:"cfg"`
+	Big int `json:"big,omitempty"` // additionally one file of this many bytes, written in several Write calls
 }
 
 func allPipelines() []Cfg {
@@ -281,8 +287,18 @@ func c03Cases(prop, tier string, seed uint64) []Case {
 		}
 	}
 	var cases []Case
+	bigs := []int{70001, 1<<20 + 3, 8<<20 + 12345}
 	for i, c := range cfgs {
-		pb, _ := json.Marshal(matrixP{Cfg: c})
+		mp := matrixP{Cfg: c}
+		// size thresholds (pipe buffers, codec windows, verification buffers): a few configurations also carry a big file
+		every := 9
+		if tier == "thorough" {
+			every = 5
+		}
+		if i%every == 1 && !c.TapeMode {
+			mp.Big = bigs[(i/every)%len(bigs)]
+		}
+		pb, _ := json.Marshal(mp)
 		cases = append(cases, Case{ID: fmt.Sprintf("c03-%03d-%s", i, c.String()), Seed: subSeed(seed, prop, tier, fmt.Sprint(i)), P: pb})
 	}
 	return cases
@@ -361,6 +377,33 @@ func c03Run(prop, tier string, c Case, w *Worker) (res Result) {
 			return
 		}
 		items = append(items, item{name, content, "fs"})
+	}
+	if p.Big > 0 {
+		content := genContent(p.Big, dists[int(c.Seed%3)], subSeed(c.Seed, "big"))
+		h, err := rig.FS.Create("/big")
+		if err != nil {
+			fail("fs-create", "Create(/big): %v", err)
+			return
+		}
+		// many Write calls of uneven sizes
+		for off, k := 0, 0; off < len(content); k++ {
+			n := []int{1, 4096, 65536, 1000003, 7}[k%5]
+			if off+n > len(content) {
+				n = len(content) - off
+			}
+			if _, err := h.Write(content[off : off+n]); err != nil {
+				fail("fs-write", "Write #%d of /big: %v", k, err)
+				return
+			}
+			off += n
+		}
+		if err := h.Close(); err != nil {
+			fail("fs-write", "Close of /big (%d bytes): %v", p.Big, err)
+			return
+		}
+		items = append(items, item{"/big", content, "fs-chunked"})
+		res.count("big_files", 1)
+		res.setAdd("big_sizes", fmt.Sprint(p.Big))
 	}
 	{ // created and closed without any write
 		h, err := rig.FS.Create("/empty-nowrite")
